@@ -233,6 +233,12 @@ func c13Body(n int, gz bool) []byte {
 }
 
 func c13Handle(p *Pipeline, rq c13Req) string {
+	return c13HandleWith(rq, func(ctx *context.Context) string { return p.Handle(ctx) })
+}
+
+// c13HandleWith builds the request and its context and lets `run` serve it (Pipeline.Handle here,
+// GlobalFilter.Handle around a pipeline in the objects harness).
+func c13HandleWith(rq c13Req, run func(ctx *context.Context) string) string {
 	method := rq.Method
 	if method == "" {
 		method = "GET"
@@ -269,7 +275,7 @@ func c13Handle(p *Pipeline, rq c13Req) string {
 	ctx := context.New(tracing.NoopSpan)
 	ctx.SetRequest(context.DefaultNamespace, req)
 	defer ctx.Finish()
-	res := p.Handle(ctx)
+	res := run(ctx)
 	// what the HTTP server does with the response afterwards
 	if v := ctx.GetResponse(context.DefaultNamespace); v != nil {
 		if r, ok := v.(*httpprot.Response); ok {
